@@ -9,19 +9,48 @@ namespace Cedar.C02
 open Cedar
 
 /-- The on-path adversary (Dolev–Yao, DESIGN §3): the wire the receiver sees is *any* list of
-    frames with arbitrary headers whose bodies are arbitrary bytes or seals that occur in frames
-    the sender emitted (IV prefix kept, stripped or replaced) — i.e. frames may be dropped,
-    duplicated, reordered, replayed, truncated, bit-flipped (⇒ junk), forged (⇒ junk, including
-    empty frames) or re-headed. It cannot make a seal under the session key itself. -/
-def AdvWire (k : Nat) (sent w : List WireFrame) : Prop :=
+    frames with arbitrary headers whose bodies are arbitrary bytes or seals under the session key
+    that occur in frames the sender emitted (`sent`) **or in frames the receiving endpoint itself
+    emitted in the other direction (`own`: reflection)**, IV prefix kept, stripped or replaced —
+    i.e. frames may be dropped, duplicated, reordered, replayed, truncated, bit-flipped (⇒ junk),
+    forged (⇒ junk, including empty frames), re-headed or reflected. It cannot make a seal under the
+    session key itself; the two endpoints are the only holders of the key. -/
+def AdvWire (k : Nat) (sent own w : List WireFrame) : Prop :=
   ∀ g ∈ w, match g.body with
     | .raw _ => True
     | .ct ivo c => (∀ i, ivo = some i → i.w0 < 2^32) ∧
-                   (c.key = k → ∃ f ∈ sent, ∃ ivo', f.body = .ct ivo' c)
+                   (c.key = k → (∃ f ∈ sent, ∃ ivo', f.body = .ct ivo' c) ∨
+                                (∃ f ∈ own, ∃ ivo', f.body = .ct ivo' c))
 
-theorem advWire_advFrame {k iv dg c0 items sent w}
-    (hsent : sent = framesFrom k iv dg c0 items) (h : AdvWire k sent w) :
-    ∀ g ∈ w, AdvFrame k iv dg c0 items g := by
+/-- a seal of the other direction is `Foreign` to this one: its nonce has another IV tail, and if
+    it is a first frame its digest pair is in the opposite order -/
+theorem own_is_foreign {k : Nat} {ivS ivR : IV} {dgR : Digest × Digest} {cR : Nat} {itemsR : List Item}
+    (hsep : ivS.tail ≠ ivR.tail) (hasym : dgR.1 ≠ dgR.2)
+    {f : WireFrame} (hf : f ∈ framesFrom k ivR dgR cR itemsR) {ivo : Option IV} {c : Sealed}
+    (hb : f.body = .ct ivo c) : Foreign ivS (dgR.2, dgR.1) c := by
+  obtain ⟨j, it, _, hfe⟩ := mem_framesFrom itemsR cR f hf
+  rw [hfe] at hb
+  simp only [frameAt, Body.ct.injEq] at hb
+  rw [← hb.2]
+  refine ⟨fun a h => ?_, ?_⟩
+  · simp only [sealedAt, IV.nonce, IV.mk.injEq] at h
+    exact hsep h.2.symm
+  · simp only [sealedAt]
+    by_cases hz : cR + j = 0
+    · rw [if_pos hz]
+      intro h
+      have h' : dgR = (dgR.2, dgR.1) := Option.some.inj h
+      have h1 := congrArg Prod.fst h'
+      exact hasym h1
+    · rw [if_neg hz]
+      intro h
+      cases h
+
+theorem advWire_advFrame {k iv ivR dg dgR c0 cR items itemsR sent own w}
+    (hsep : iv.tail ≠ ivR.tail) (hasym : dgR.1 ≠ dgR.2)
+    (hsent : sent = framesFrom k iv dg c0 items) (hown : own = framesFrom k ivR dgR cR itemsR)
+    (h : AdvWire k sent own w) :
+    ∀ g ∈ w, AdvFrame k iv dg (dgR.2, dgR.1) c0 items g := by
   intro g hg
   have := h g hg
   unfold AdvFrame
@@ -30,42 +59,66 @@ theorem advWire_advFrame {k iv dg c0 items sent w}
   | ct ivo c =>
     simp only [hb] at this ⊢
     refine ⟨this.1, fun hk => ?_⟩
-    obtain ⟨f, hf, ivo', hfb⟩ := this.2 hk
-    rw [hsent] at hf
-    obtain ⟨j, it, hj, hfe⟩ := mem_framesFrom items c0 f hf
-    refine ⟨j, it, hj, ?_⟩
-    rw [hfe] at hfb
-    simp only [frameAt, Body.ct.injEq] at hfb
-    exact hfb.2.symm
+    rcases this.2 hk with ⟨f, hf, ivo', hfb⟩ | ⟨f, hf, ivo', hfb⟩
+    · left
+      rw [hsent] at hf
+      obtain ⟨j, it, hj, hfe⟩ := mem_framesFrom items c0 f hf
+      refine ⟨j, it, hj, ?_⟩
+      rw [hfe] at hfb
+      simp only [frameAt, Body.ct.injEq] at hfb
+      exact hfb.2.symm
+    · right
+      rw [hown] at hf
+      exact own_is_foreign hsep hasym hf hfb
 
-/-- **recv_prefix** (fresh session). Two endpoints install the same key; the sender's application
-    performs any sequence of frame sends `ops` that the sender accepts; the adversary rewrites the
-    wire arbitrarily within `AdvWire`. Whatever `ReceiveCompleteMessage` hands the receiving
-    application before its first error is a prefix of the messages sent, boundaries intact. -/
-theorem recv_prefix (S S' R : Stream) (k : Nat) (ivS ivR : IV) (ops : List SendOp)
-    (sent w : List WireFrame) (hivS : ivS.w0 < 2^32)
+/-- **recv_prefix** (fresh session). Two endpoints install the same key with their own fresh IVs;
+    the sender's application performs any sequence of frame sends `ops` that the sender accepts,
+    the receiving endpoint itself sends any `opsR` in the other direction; the adversary rewrites
+    the wire arbitrarily within `AdvWire` (its own bytes, the sender's seals, the receiver's own
+    seals reflected). Whatever `ReceiveCompleteMessage` hands the receiving application before its
+    first error is a prefix of the messages sent, boundaries intact.
+    Hypotheses about the session: the two fresh IVs differ in their last 12 bytes (`hsep`, two
+    independent `crypto/rand` draws) and the receiver's two transcript digests differ (`hasym`:
+    something was exchanged in clear before the key was installed — true after every handshake;
+    see `reflection_needs_asymmetry` for the excluded point). -/
+theorem recv_prefix (S S' R R' : Stream) (k : Nat) (ivS ivR : IV) (ops opsR : List SendOp)
+    (sent own w : List WireFrame) (hivS : ivS.w0 < 2^32)
+    (hsep : ivS.tail ≠ ivR.tail) (hasym : R.dig.fs ≠ R.dig.fr)
     (hsend : (S.setKey k ivS).sendAll ops = .ok (S', sent))
-    (hadv : AdvWire k sent w) (n : Nat) :
+    (hown : (R.setKey k ivR).sendAll opsR = .ok (R', own))
+    (hadv : AdvWire k sent own w) (n : Nat) :
     Stream.deliverFuel n (R.setKey k ivR) w <+: messagesOf [] ops := by
   obtain ⟨items, hsent, hops, hlim, _, _⟩ :=
     sendAll_spec ops _ S' 0 sent (setKey_sendInv S k ivS) hsend
+  obtain ⟨itemsR, hownE, _, _, _, _⟩ :=
+    sendAll_spec opsR _ R' 0 own (setKey_sendInv R k ivR) hown
   have hr : RecvInv (R.setKey k ivR) k ivS 0 0 :=
     ⟨rfl, rfl, rfl, by simp [Stream.setKey], fun h => absurd rfl h⟩
-  have := deliver_prefix (dg := (S.dig.fs, S.dig.fr)) hivS hlim n (R.setKey k ivR) w 0 (Nat.zero_le _) hr
-    (advWire_advFrame hsent hadv)
+  have hdg : 0 + 0 = 0 → ((R.setKey k ivR).dig.fr, (R.setKey k ivR).dig.fs) = (R.dig.fr, R.dig.fs) := by
+    intro _
+    simp [Stream.setKey, Dig.finalize, Dig.fs, Dig.fr]
+  have := deliver_prefix (dg := (S.dig.fs, S.dig.fr)) (rdg := (R.dig.fr, R.dig.fs)) hivS hlim n
+    (R.setKey k ivR) w 0 (Nat.zero_le _) hr hdg
+    (advWire_advFrame (dgR := (R.dig.fs, R.dig.fr)) hsep hasym hsent hownE hadv)
   simpa [hops] using this
 
-/-- **recv_prefix_midstream**: the same for an established session picked up at any counter value
+/-- **recv_prefix_midstream**: the same for an established session picked up at any counter values
     (after earlier traffic, or after a crypto-state hand-off, C15): the receiver delivers a prefix
-    of what is sent from here on. -/
-theorem recv_prefix_midstream (S S' R : Stream) (k : Nat) (iv : IV) (dg : Digest × Digest) (c0 : Nat)
-    (ops : List SendOp) (sent w : List WireFrame) (hiv : iv.w0 < 2^32)
-    (hS : SendInv S k iv dg c0) (hR : RecvInv R k iv c0 0)
-    (hsend : S.sendAll ops = .ok (S', sent))
-    (hadv : AdvWire k sent w) (n : Nat) :
+    of what is sent from here on, whatever is replayed, forged or reflected. -/
+theorem recv_prefix_midstream (S S' R R' : Stream) (k : Nat) (iv ivR : IV) (dg dgR : Digest × Digest) (c0 cR : Nat)
+    (ops opsR : List SendOp) (sent own w : List WireFrame) (hiv : iv.w0 < 2^32)
+    (hsep : iv.tail ≠ ivR.tail) (hasym : dgR.1 ≠ dgR.2)
+    (hS : SendInv S k iv dg c0) (hR : RecvInv R k iv c0 0) (hRs : SendInv R k ivR dgR cR)
+    (hsend : S.sendAll ops = .ok (S', sent)) (hown : R.sendAll opsR = .ok (R', own))
+    (hadv : AdvWire k sent own w) (n : Nat) :
     Stream.deliverFuel n R w <+: messagesOf [] ops := by
   obtain ⟨items, hsent, hops, hlim, _, _⟩ := sendAll_spec ops S S' c0 sent hS hsend
-  have := deliver_prefix (dg := dg) hiv hlim n R w 0 (Nat.zero_le _) hR (advWire_advFrame hsent hadv)
+  obtain ⟨itemsR, hownE, _, _, _, _⟩ := sendAll_spec opsR R R' cR own hRs hown
+  have hdg : c0 + 0 = 0 → (R.dig.fr, R.dig.fs) = (dgR.2, dgR.1) := by
+    intro _
+    rw [Dig.fr_of_final hRs.fr, Dig.fs_of_final hRs.fs]
+  have := deliver_prefix (dg := dg) (rdg := (dgR.2, dgR.1)) hiv hlim n R w 0 (Nat.zero_le _) hR hdg
+    (advWire_advFrame hsep hasym hsent hownE hadv)
   simpa [hops] using this
 
 /-- **no_bypass**: on a keyed, encrypting stream every frame `ReceiveFrameWithEnd` accepts went
@@ -118,5 +171,17 @@ example : Stream.deliver (({} : Stream).setKey 7 ⟨5, []⟩) demoSent = [[1,2,3
 example : Stream.deliver (({} : Stream).setKey 7 ⟨5, []⟩) (demoSent.eraseIdx 1) = [] := by decide
 example : Stream.deliver (({} : Stream).setKey 7 ⟨5, []⟩) (demoSent.eraseIdx 2) = [[1,2,3]] := by decide
 example : Stream.deliver (({} : Stream).setKey 7 ⟨5, []⟩) (demoSent ++ [⟨1, 0, .raw []⟩]) = [[1,2,3], [], [9,9]] := by decide
+
+/-- **reflection_needs_asymmetry** — the excluded point of `hasym`, exhibited: on a stream keyed
+    with NOTHING exchanged in clear beforehand both transcript digests are the zero digest, and an
+    endpoint's own first frame (with its IV prefix), reflected, is accepted as the peer's first
+    frame. This is a feature of the wire format (the AAD orders the two digests but carries no
+    direction bit), not of this implementation; after any handshake the digests differ
+    (`C04.transcript_binding`). Recorded as an observation in DESIGN.md §5. -/
+theorem reflection_needs_asymmetry :
+    let A := ({} : Stream).setKey 7 ivA
+    (match A.sendAll [([1, 2], 1)] with
+     | .ok (_, fs) => Stream.deliver A fs
+     | .error _ => []) = [[1, 2]] := by decide
 
 end Cedar.C02
